@@ -35,9 +35,13 @@ use crate::{
 
 #[derive(Clone, Debug)]
 pub enum Ev {
+    New(usize),
     Reseed,
+    ReseedD(Vec<u8>),
     Draw(Vec<u8>),
+    Lz(u64),
     Ints(Vec<usize>),
+    IntsReq(usize, usize, u64),
 }
 
 thread_local! {
@@ -51,14 +55,21 @@ impl<B: StarkField, H: ElementHasher<BaseField = B>> RandomCoin for RecCoin<H> {
     type Hasher = H;
 
     fn new(seed: &[B]) -> Self {
-        LOG.with(|l| l.borrow_mut().clear());
+        LOG.with(|l| {
+            l.borrow_mut().clear();
+            l.borrow_mut().push(Ev::New(seed.len()));
+        });
         RecCoin(DefaultRandomCoin::new(seed))
     }
     fn reseed(&mut self, data: H::Digest) {
-        LOG.with(|l| l.borrow_mut().push(Ev::Reseed));
+        LOG.with(|l| {
+            l.borrow_mut().push(Ev::ReseedD(data.to_bytes()));
+            l.borrow_mut().push(Ev::Reseed);
+        });
         self.0.reseed(data)
     }
     fn check_leading_zeros(&self, value: u64) -> u32 {
+        LOG.with(|l| l.borrow_mut().push(Ev::Lz(value)));
         self.0.check_leading_zeros(value)
     }
     fn draw<E: FieldElement<BaseField = B>>(&mut self) -> Result<E, RandomCoinError> {
@@ -73,7 +84,10 @@ impl<B: StarkField, H: ElementHasher<BaseField = B>> RandomCoin for RecCoin<H> {
         nonce: u64,
     ) -> Result<Vec<usize>, RandomCoinError> {
         let r = self.0.draw_integers(num_values, domain_size, nonce)?;
-        LOG.with(|l| l.borrow_mut().push(Ev::Ints(r.clone())));
+        LOG.with(|l| {
+            l.borrow_mut().push(Ev::IntsReq(num_values, domain_size, nonce));
+            l.borrow_mut().push(Ev::Ints(r.clone()));
+        });
         Ok(r)
     }
 }
@@ -90,7 +104,10 @@ struct Challenges<E> {
 }
 
 fn challenges<E: FieldElement>(num_layers: usize) -> Option<Challenges<E>> {
-    let log = LOG.with(|l| l.borrow().clone());
+    let log: Vec<Ev> = LOG.with(|l| l.borrow().clone())
+        .into_iter()
+        .filter(|e| matches!(e, Ev::Reseed | Ev::Draw(_) | Ev::Ints(_)))
+        .collect();
     let ints_at = log.iter().position(|e| matches!(e, Ev::Ints(_)))?;
     let mut positions = match &log[ints_at] {
         Ev::Ints(v) => v.clone(),
@@ -438,4 +455,77 @@ where
     let verdict = verify_rec::<B, H>(Proof::from_bytes(&fbytes).unwrap(), pi, &acc);
     json!({"honest": honest, "forged": kind != "honest", "changed": changed, "verdict": verdict, "blind": blind,
            "positions": nq, "layers": num_layers, "comp_cols": comp_cols})
+}
+
+
+// TRANSCRIPT RECORDING (Fiat-Shamir binding)
+// ------------------------------------------------------------------------------------------------
+
+fn hex(b: &[u8]) -> String {
+    b.iter().map(|x| format!("{x:02x}")).collect()
+}
+
+/// Abstract coin events: consecutive draws are merged into one {"e":"draw","n":k}; leading-zero checks
+/// of the prover's nonce search are merged into one {"e":"lz","n":k}.
+fn abstract_log() -> Vec<Value> {
+    let log = LOG.with(|l| l.borrow().clone());
+    let mut out: Vec<Value> = vec![];
+    for e in log {
+        match e {
+            Ev::New(n) => out.push(json!({"e": "new", "n": n, "d": ""})),
+            Ev::ReseedD(d) => out.push(json!({"e": "reseed", "n": 0, "d": hex(&d)})),
+            Ev::Reseed => {},
+            Ev::Draw(_) => match out.last_mut() {
+                Some(l) if l["e"] == "draw" => l["n"] = json!(l["n"].as_u64().unwrap() + 1),
+                _ => out.push(json!({"e": "draw", "n": 1, "d": ""})),
+            },
+            Ev::Lz(_) => match out.last_mut() {
+                Some(l) if l["e"] == "lz" => l["n"] = json!(l["n"].as_u64().unwrap() + 1),
+                _ => out.push(json!({"e": "lz", "n": 1, "d": ""})),
+            },
+            Ev::IntsReq(n, dom, _) => out.push(json!({"e": "ints", "n": n, "d": format!("{dom}")})),
+            Ev::Ints(_) => {},
+        }
+    }
+    out
+}
+
+/// Proves and verifies with the recording coin on both sides; returns both abstract coin event
+/// sequences plus the commitments the proof carries (in order) and the digest of the OOD frame.
+pub fn transcript<B, H, E>(case: &Case) -> Value
+where
+    B: StarkField + ExtensibleField<2> + ExtensibleField<3> + 'static,
+    H: ElementHasher<BaseField = B> + Sync,
+    E: FieldElement<BaseField = B>,
+{
+    let built = build_trace::<B>(case);
+    let options = case.opts.build();
+    let trace = GenTrace::new(built.desc.clone(), built.cols, built.honest_values.clone());
+    let prover = GenProver::<B, H, RecCoin<H>>::new(options.clone());
+    let proof = match catch(|| run_prover(&prover, trace)) {
+        Ok(Ok(p)) => p,
+        other => return json!({"verdict": "prover_failed", "detail": format!("{:?}", other.map(|r| r.map(|_| ())))}),
+    };
+    let plog = abstract_log();
+    let num_segments = if built.desc.aux.is_empty() { 1 } else { 2 };
+    let num_layers = proof.fri_proof.num_layers();
+    let bytes = proof.to_bytes();
+    let (tc, cc, fc) = match proof.commitments.clone().parse::<H>(num_segments, num_layers) {
+        Ok(x) => x,
+        Err(e) => return json!({"verdict": "commitments_parse_failed", "detail": format!("{e:?}")}),
+    };
+    let mut commitments: Vec<String> = tc.iter().map(|d| hex(&d.to_bytes())).collect();
+    commitments.push(hex(&cc.to_bytes()));
+    commitments.extend(fc.iter().map(|d| hex(&d.to_bytes())));
+    // digest of the OOD frame as both sides must absorb it
+    let main_w = built.desc.width;
+    let aux_w = built.desc.aux.first().map(|a| a.width).unwrap_or(0);
+    let pi = GenPub { desc: built.desc.clone(), values: built.honest_values.clone() };
+    let acc = AcceptableOptions::OptionSet(vec![options]);
+    let verdict = verify_rec::<B, H>(Proof::from_bytes(&bytes).unwrap(), pi, &acc);
+    let vlog = abstract_log();
+    let _ = (main_w, aux_w);
+    let _e: Option<E> = None;
+    json!({"verdict": verdict, "prover": plog, "verifier": vlog, "commitments": commitments,
+           "segments": num_segments, "layers": num_layers})
 }
